@@ -68,13 +68,15 @@ type c43Acct struct {
 // c43Op is one step of the wallet history after the accounts exist. Account positions are resolved
 // modulo the current number of accounts inside run.
 type c43Op struct {
-	Op    string   `json:"op"`              // tolow | todefault | chpw | delete | setdefault | setlabel | new | reload
+	Op    string   `json:"op"`              // tolow | todefault | chpw | delete | setdefault | setlabel | new | reload | unlock | lock | probe
 	At    int      `json:"at,omitempty"`    // account position
 	Mode  string   `json:"mode,omitempty"`  // tolow/todefault: right | wrong-at | all-wrong; chpw/delete: right | wrong
 	Pw    ev.B     `json:"pw,omitempty"`    // chpw: the new password
 	Wrong ev.B     `json:"wrong,omitempty"` // material of the wrong password(s)
 	Label string   `json:"label,omitempty"` // setlabel
 	Acct  *c43Acct `json:"acct,omitempty"`  // new
+	Exp   int      `json:"exp,omitempty"`   // unlock: expiry in seconds (0 = expired at once; otherwise hours, so no run depends on the clock)
+	Via   string   `json:"via,omitempty"`   // probe: entry point tried with a wrong password: addr | label | index | default | delete | unlock
 }
 
 type c43Case struct {
@@ -216,12 +218,17 @@ func genC43(t *rapid.T) c43Case {
 	}
 	// history after creation: whole-wallet re-encryption (all passwords right / one wrong / all wrong),
 	// password change, deletion, default/label changes, a late account, re-opening the file
-	kinds := []string{"tolow", "tolow", "tolow", "todefault", "chpw", "chpw", "delete", "setdefault", "setlabel", "new", "reload", "reload"}
-	nOps := rapid.SampledFrom([]int{0, 1, 1, 2, 3}).Draw(t, "nops")
+	kinds := []string{"tolow", "tolow", "tolow", "todefault", "chpw", "chpw", "delete", "setdefault", "setlabel", "new", "reload", "reload",
+		"unlock", "unlock", "unlock", "lock", "probe", "probe"}
+	nOps := rapid.SampledFrom([]int{2, 1, 3, 0, 4}).Draw(t, "nops")
 	for i := 0; i < nOps; i++ {
 		o := c43Op{Op: rapid.SampledFrom(kinds).Draw(t, "op"), At: rapid.IntRange(0, 3).Draw(t, "at")}
 		if i > 0 && c.Ops[i-1].Op == "tolow" && c.Ops[i-1].Mode == "right" && rapid.IntRange(0, 2).Draw(t, "late") == 0 {
 			o.Op = "new" // an account added to a converted wallet
+		}
+		if i > 0 && c.Ops[i-1].Op == "unlock" && rapid.IntRange(0, 3).Draw(t, "whileunlocked") < 3 { // (rapid favours small values: mostly taken)
+			// wrong passwords against an account that is (or was just asked to be) unlocked
+			o.Op, o.At = rapid.SampledFrom([]string{"probe", "probe", "probe", "delete", "unlock"}).Draw(t, "op2"), c.Ops[i-1].At
 		}
 		switch o.Op {
 		case "tolow", "todefault":
@@ -233,8 +240,18 @@ func genC43(t *rapid.T) c43Case {
 			o.Pw = genC43Pw(t)
 			o.Wrong = rapid.SliceOfN(rapid.ByteRange(0x21, 0x7e), 1, 12).Draw(t, "wrongpw")
 		case "delete":
-			o.Mode = rapid.SampledFrom([]string{"right", "right", "wrong"}).Draw(t, "delmode")
+			o.Mode = rapid.SampledFrom([]string{"right", "wrong", "wrong"}).Draw(t, "delmode")
 			o.Wrong = rapid.SliceOfN(rapid.ByteRange(0x21, 0x7e), 1, 12).Draw(t, "wrongpw")
+		case "unlock":
+			o.Mode = rapid.SampledFrom([]string{"right", "right", "right", "wrong"}).Draw(t, "unlockmode")
+			if i > 0 && c.Ops[i-1].Op == "unlock" && o.At == c.Ops[i-1].At {
+				o.Mode = "wrong"
+			}
+			o.Exp = rapid.SampledFrom([]int{3600, 86400, 36000, 0}).Draw(t, "expiry")
+			o.Wrong = rapid.SliceOfN(rapid.ByteRange(0x21, 0x7e), 1, 12).Draw(t, "wrongpw")
+		case "probe":
+			o.Via = rapid.SampledFrom([]string{"addr", "label", "index", "default", "delete", "unlock"}).Draw(t, "probevia")
+			o.Wrong = rapid.OneOf(rapid.SliceOfN(rapid.ByteRange(0x21, 0x7e), 1, 12), rapid.Just([]byte{})).Draw(t, "wrongpw")
 		case "setlabel":
 			o.Label = rapid.SampledFrom([]string{"", "a", "a_1", "main", "renamed", "名前"}).Draw(t, "newlabel")
 		case "new":
@@ -279,6 +296,19 @@ type c43Made struct {
 	deflt   bool   // expected default flag
 	changed bool   // password was changed after creation
 	lateLow bool   // created by NewAccount while the wallet ran on non-default scrypt parameters
+	unlock  bool   // expected: unlocked (without expiry in reach) in the current client
+}
+
+// checkUnlockState compares the client's unlock cache with the model for one account; an unlocked
+// account is handed out without a password by design (GetUnlockAccount) and must be the right one.
+func checkUnlockState(ctx *ev.Ctx, what string, cli *account.ClientImpl, m *c43Made, oi int) {
+	got := cli.GetUnlockAccount(m.orig.Address.ToBase58())
+	if (got != nil) != m.unlock {
+		ctx.Failf("%s: account %s unlocked in the client = %v, expected %v", what, m.orig.Address.ToBase58(), got != nil, m.unlock)
+	}
+	if got != nil {
+		sameAccount(ctx, what+": unlocked account", m.orig, got, oi)
+	}
 }
 
 // lateKnown routes a refusal of the account's own password to the root-cause key of accounts that
@@ -733,10 +763,97 @@ func runC43Ops(ctx *ev.Ctx, c c43Case, path string, pcli **account.ClientImpl, p
 			if low {
 				ctx.Label("new:in-converted-wallet")
 			}
+		case "unlock":
+			pw := m.pw
+			if o.Mode == "wrong" {
+				pw = o.Wrong
+			}
+			if o.Exp < 0 || (o.Exp > 0 && o.Exp < 3600) {
+				ctx.Label("skip:malformed-case") // short expiries would make the verdict depend on the clock
+				continue
+			}
+			var err error
+			if pn := ev.Catch(func() { err = cli.UnLockAccount(addr, o.Exp, pw) }); pn != "" {
+				ctx.Failf("%s: UnLockAccount panicked: %s", what, pn)
+			}
+			if differs(pw, m.pw) {
+				if err == nil {
+					ctx.Failf("%s: account %s unlocked with password %x, its password is %x (history %s)", what, addr, pw, m.pw, opsSummary(c))
+				}
+				ctx.Label("unlock:refused")
+			} else {
+				if err != nil && lateKnown(ctx, m, what, err) {
+					continue
+				}
+				if err != nil {
+					ctx.Failf("%s: UnLockAccount with the account's own password (%x) failed: %v (history %s)", what, m.pw, err, opsSummary(c))
+				}
+				m.unlock = o.Exp > 0
+				ctx.Label(fmt.Sprintf("unlock:done-expiry-%d", o.Exp))
+			}
+			checkUnlockState(ctx, what, cli, m, oi) // a refused unlock changes nothing
+		case "lock":
+			cli.LockAccount(addr)
+			m.unlock = false
+			checkUnlockState(ctx, what, cli, m, oi)
+		case "probe":
+			// a wrong password against one password-taking entry point, at this point of the history
+			if !differs(o.Wrong, m.pw) {
+				ctx.Label("probe:skipped-equivalent-password")
+				continue
+			}
+			idx := 0
+			for k, mk := range made {
+				if mk == m {
+					idx = k + 1
+				}
+			}
+			via := o.Via
+			if (via == "label" && m.label == "") || (via == "default" && !m.deflt) {
+				via = "addr"
+			}
+			var acc *account.Account
+			var err error
+			if pn := ev.Catch(func() {
+				switch via {
+				case "label":
+					acc, err = cli.GetAccountByLabel(m.label, o.Wrong)
+				case "index":
+					acc, err = cli.GetAccountByIndex(idx, o.Wrong)
+				case "default":
+					acc, err = cli.GetDefaultAccount(o.Wrong)
+				case "delete":
+					acc, err = cli.DeleteAccount(addr, o.Wrong)
+				case "unlock":
+					err = cli.UnLockAccount(addr, 7200, o.Wrong)
+				default:
+					acc, err = cli.GetAccountByAddress(addr, o.Wrong)
+				}
+			}); pn != "" {
+				ctx.Failf("%s: %s with a wrong password panicked: %s", what, via, pn)
+			}
+			state := "locked"
+			if m.unlock {
+				state = "unlocked"
+				ctx.Label("probe:while-unlocked")
+			}
+			ctx.Label("probe:" + via)
+			if err == nil || acc != nil {
+				ctx.Failf("%s: entry point %q accepted password %x for account %s (%s in this client), whose password is %x (history %s)",
+					what, via, []byte(o.Wrong), addr, state, m.pw, opsSummary(c))
+			}
+			// no effect: still in the wallet, unlock state as before
+			if cli.GetAccountMetadataByAddress(addr) == nil {
+				ctx.Failf("%s: account %s disappeared after a refused %s", what, addr, via)
+			}
+			checkUnlockState(ctx, what, cli, m, oi)
 		case "reload":
 			c2, err := account.NewClientImpl(path)
 			if err != nil {
 				ctx.Failf("%s: re-open saved wallet: %v", what, err)
+			}
+			for _, mk := range made {
+				mk.unlock = false // the unlock cache belongs to the client instance
 			}
 			*pcli = c2
 			if sp := c2.GetWalletData().Scrypt; sp != nil {
@@ -763,8 +880,9 @@ func TestC43(t *testing.T) {
 	ev.Drive(t, "C43",
 		"cases: wallets of 1..3 accounts over every key type/curve of the wallet CLI (ECDSA P-224/256/384/521/secp256k1, SM2, Ed25519) x every admitted signature scheme, "+
 			"created (NewAccount) or imported from a donor wallet (ImportAccount, incl. label clashes), labels incl. empty/duplicate/non-ASCII, passwords of 1..80 bytes "+
-			"(printable, UTF-8, arbitrary bytes, trailing NUL, exactly 64, longer than 64); then 0..3 further wallet operations: ToLowSecurity / ToDefaultSecurity with all passwords right, "+
-			"one wrong at a chosen position or all wrong (followed by saving the wallet data), ChangePassword / DeleteAccount with the right or a wrong password, SetDefaultAccount, SetLabel, a late NewAccount, re-opening; "+
+			"(printable, UTF-8, arbitrary bytes, trailing NUL, exactly 64, longer than 64); then 0..4 further wallet operations: ToLowSecurity / ToDefaultSecurity with all passwords right, "+
+			"one wrong at a chosen position or all wrong (followed by saving the wallet data), ChangePassword / DeleteAccount with the right or a wrong password, SetDefaultAccount, SetLabel, a late NewAccount, re-opening, UnLockAccount (right/wrong password, expiry 0 or hours), LockAccount, "+
+			"and probes with a wrong password through every password-taking entry point (by address/label/index/default, DeleteAccount, UnLockAccount), preferably right after an unlock; "+
 			"then a fresh client re-opens the file and every remaining account is opened with its current password and with other passwords (incl. a replaced old password). "+
 			"non-trivial: at least one account was decrypted with its own password after the reload and compared with the original key pair, and at least one "+
 			"password that differs under the HMAC key normal form was tried against it; distinct by JSON encoding of the case (key material itself is drawn by the code under test)",
